@@ -62,7 +62,8 @@ def gen_case(rng, tier, index):
             ops.append(["up", k, rng.randrange(nrepo), rng.choice(["master", "dev"]), rng.choice(FILES),
                         "up-%x" % rng.getrandbits(24), "t%d" % rng.randrange(3)])
         elif r < 0.42:
-            k = rng.choice(["branch", "branch", "tag", "commit", "dir", "add2", "rm2", "toimport", "togit", "rebase"])
+            k = rng.choice(["branch", "branch", "tag", "commit", "commit_on_branch", "commit_on_branch", "tag_on_branch",
+                            "dir", "add2", "rm2", "toimport", "togit", "rebase"])
             ops.append(["spec", k, rng.choice(["master", "dev"]), "t%d" % rng.randrange(3), rng.choice([".", "sub", "sub2"]),
                         rng.randrange(nrepo)])
         elif r < 0.67:
@@ -82,21 +83,25 @@ def directed_cases(tier):
     source workspace, the recipe moves on so that the workspace is switched /
     moved to the attic / becomes unused, then non-forced cleaning runs."""
     out = []
-    users = ["dirty", "untracked", "commit", "branch", "detach"]
-    specs = [["spec", "branch", "dev", "t0", ".", 0], ["spec", "tag", "master", "t0", ".", 0],
-             ["spec", "dir", "master", "t0", "sub2", 0], ["spec", "toimport", "master", "t0", ".", 0]]
+    S = {"branch": ["spec", "branch", "dev", "t0", ".", 0], "tag": ["spec", "tag", "master", "t0", ".", 0],
+         "dir": ["spec", "dir", "master", "t0", "sub2", 0], "toimport": ["spec", "toimport", "master", "t0", ".", 0],
+         "commit_on_branch": ["spec", "commit_on_branch", "master", "t0", ".", 0],
+         "tag_on_branch": ["spec", "tag_on_branch", "master", "t0", ".", 0],
+         "commit": ["spec", "commit", "master", "t0", ".", 0]}
+    pairs = [("commit", "commit_on_branch"), ("commit", "tag_on_branch"), ("dirty", "branch"), ("untracked", "tag"),
+             ("commit", "dir"), ("branch", "toimport"), ("detach", "branch"), ("commit", "branch"), ("untracked", "toimport"),
+             ("dirty", "commit_on_branch"), ("branch", "commit"), ("detach", "tag_on_branch")]
     n = 0
     for release in (False, True):
-        for ui, u in enumerate(users):
-            sp = specs[(ui + (1 if release else 0)) % len(specs)]
+        for u, sp in pairs:
             n += 1
             out.append({"nrepo": 1, "spec": {"scms": [{"type": "git", "repo": 0, "branch": "master", "dir": "."}]},
-                        "release": release, "directed": "user %s then %s then clean" % (u, sp[1]),
-                        "ops": [["bob", "dev", n], ["user", u, 0, "a.txt", "MARK%dXd%d" % (n, n)], sp,
+                        "release": release, "directed": "user %s then %s then clean" % (u, sp),
+                        "ops": [["bob", "dev", n], ["user", u, 0, "a.txt", "MARK%dXd%d" % (n, n)], S[sp],
                                 ["bob", "dev", n + 100], ["bob", "clean-s", n + 200], ["bob", "clean-attic", n + 300],
                                 ["bob", "dev", n + 400]]})
     if tier != "thorough":
-        out = out[::2] + out[1::4]
+        out = out[:6] + out[12:14] + out[14::3]
     return out
 
 # ---------------------------------------------------------------------------
@@ -155,7 +160,7 @@ def _recipes(spec, repos, top):
         else:
             scms.append({"scm": "import", "url": "imp-src", "dir": s["dir"], "prune": True})
     lib = {"checkoutSCM": scms,
-           "buildScript": projgen.DUMP_FN + "__dump \"$1\" > b.txt\n",
+           "buildScript": "echo built > b.txt\n",
            "packageScript": projgen.DUMP_FN + "__dump \"$1\" > p.txt\n"}
     root = {"root": True, "depends": ["lib"], "buildScript": projgen.DUMP_FN + "__dump \"$2\" > b.txt\n",
             "packageScript": "echo root > p.txt\n"}
@@ -187,6 +192,13 @@ def _find_markers(git, proj, markers):
     for root, dirs, files in os.walk(proj):
         if ".git" in dirs:
             dirs.remove(".git")
+        rel = os.path.relpath(root, proj)
+        # only source workspaces and their attics count: build/package results may contain
+        # copies of what they consumed, which is no place a user would look for lost work
+        if rel.split("/")[0] in ("dev", "work"):
+            for lab in ("build", "dist"):
+                if lab in dirs and (rel == "dev" or rel.startswith("work")):
+                    dirs.remove(lab)
         for f in files:
             p = os.path.join(root, f)
             if os.path.islink(p):
@@ -314,6 +326,25 @@ def run_case(case):
                         if c.returncode == 0:
                             s0.pop("branch", None); s0.pop("tag", None)
                             s0["commit"] = c.stdout.decode().strip()
+                    elif k == "commit_on_branch" and s0["type"] == "git":
+                        # pin a commit *on* a branch (an older one: the inline switch has to go back in history)
+                        b = s0.get("branch") or br
+                        w_ = repos[s0["repo"]]["work"]
+                        c = git.run(w_, "rev-parse", b + "~1", check=False)
+                        if c.returncode != 0:
+                            c = git.run(w_, "rev-parse", b, check=False)
+                        if c.returncode == 0:
+                            s0.pop("tag", None)
+                            s0["branch"] = b
+                            s0["commit"] = c.stdout.decode().strip()
+                    elif k == "tag_on_branch" and s0["type"] == "git":
+                        b = s0.get("branch") or "master"
+                        w_ = repos[s0["repo"]]["work"]
+                        if (git.run(w_, "rev-parse", "--verify", "-q", "refs/tags/" + tag, check=False).returncode == 0 and
+                                git.run(w_, "merge-base", "--is-ancestor", "refs/tags/" + tag, b, check=False).returncode == 0):
+                            s0.pop("commit", None)
+                            s0["branch"] = b
+                            s0["tag"] = tag
                     elif k == "dir":
                         if all(x["dir"] != d for x in spec["scms"][1:]):
                             s0["dir"] = d
